@@ -312,7 +312,9 @@ def prop_tables(pid, fn, explanation):
             ctx = Ctx(cfg)
             rep.configs.append(cfg)
             fn(rep, ctx)
-            contract_records(rep, ctx, pid)
+            n = contract_records(rep, ctx, pid)
+            if cfg == 'full':
+                ctx.floor(f'{pid} contract records', n, floors().get(pid, {}).get('contracts', 0))
             extra = EXTRA_RULES.get(pid)
             if extra:
                 extra(rep, ctx)
@@ -343,6 +345,10 @@ def extra_C15(rep, ctx):
         raise AnalysisIncomplete(f"serde static-agreement rule saw {len(info)} types, expected {need}")
 
 
+def extra_C06(rep, ctx):
+    tables.c06_widths(rep, ctx.facts)
+
+
 def extra_C17(rep, ctx):
     graph.delegation(rep, ctx.facts)
 
@@ -351,7 +357,7 @@ def extra_C18(rep, ctx):
     graph.clock_readers(rep, ctx.facts)
 
 
-EXTRA_RULES = {'C10': extra_C10, 'C11': extra_C11, 'C15': extra_C15, 'C17': extra_C17, 'C18': extra_C18}
+EXTRA_RULES = {'C06': extra_C06, 'C10': extra_C10, 'C11': extra_C11, 'C15': extra_C15, 'C17': extra_C17, 'C18': extra_C18}
 
 PROPS = {
     'C01': prop_tables('C01', lambda rep, ctx: tables.c01_tables(rep, ctx.facts),
@@ -369,6 +375,7 @@ PROPS = {
     'C13': prop_contracts('C13', 'interval decomposition identities, decision lists of the field constructors, negation, signed accessors'),
     'C16': prop_contracts('C16', 'whole-second congruence and floor characterisation of every Oracle-style date producer'),
     'C17': prop_contracts('C17', 'mixed comparisons compare the converted counts with the receiver on the left; Timestamp/OracleDate units delegate to the same trait item (resolved callee identity)'),
+    'C06': prop_contracts('C06', 'writer/reader agreement (necessary conditions of the round trip): per type and token both sides accept or both reject; field widths of the reader equal what the writer can emit'),
     'C14': prop_contracts('C14', 'decision list of the float scaling functions on every exit state: zero test before dividing, infinite -> overflow, NaN -> invalid, own gate, product/quotient cast without rounding'),
     'C15': prop_contracts('C15', 'checked binary decoding (gate on the payload), channel agreement, static formatter identity and literal, buffer capacity'),
     'C18': prop_contracts('C18', 'who reads the clock (call graph), one reading per now()/conversion, chrono fields flow to the matching gate arguments'),
